@@ -153,8 +153,12 @@ class IntervalWalker:
         return out
 
 
-def merge_partition(items):
-    """items: [(lo, hi, label)] -> sorted, adjacent equal labels merged"""
+def merge_partition(items, point_label=None):
+    """items: [(lo, hi, label)] -> sorted, adjacent equal labels merged.
+    point_label(label, v) may rewrite the label of a single-point interval [v, v] (e.g. `identity` at 600 is the
+    same as `const 600`), so that `>=` vs `>` at a boundary whose two sides agree stays silent."""
+    if point_label is not None:
+        items = [(lo, hi, point_label(lab, lo) if lo == hi else lab) for lo, hi, lab in items]
     items = sorted(set(items))
     out = []
     for lo, hi, label in items:
@@ -163,3 +167,24 @@ def merge_partition(items):
         else:
             out.append((lo, hi, label))
     return out
+
+
+def compare_partitions(got, expected, point_equiv=None):
+    """Differences between two partitions of the same range, segment by segment.  On a single-point segment [v, v]
+    point_equiv(label_got, label_expected, v) may declare two different labels equivalent (`identity` at 600 ==
+    `const 600`), so that moving a boundary whose two sides agree there (>= 600 vs > 600) is not a difference."""
+    points = sorted({x for lo, hi, _ in list(got) + list(expected) for x in (lo, hi + 1)})
+    diffs = []
+
+    def label_at(part, v):
+        ls = sorted({l for lo, hi, l in part if lo <= v <= hi})
+        return "|".join(ls) if ls else "(unreachable)"
+
+    for a, b in zip(points, points[1:]):
+        lg, le = label_at(got, a), label_at(expected, a)
+        if lg == le:
+            continue
+        if a == b - 1 and point_equiv is not None and point_equiv(lg, le, a):
+            continue
+        diffs.append("[%d,%d]: code does %s, property says %s" % (a, b - 1, lg, le))
+    return diffs
